@@ -565,6 +565,16 @@ def register(E):
             return via_call(E, st, tgt, list(args))
         return None
 
+    @model(r'^core::bool::<impl bool>::(then|then_some)$')
+    def _(E, st, callee, a, m):
+        b = d(st, a[0])
+        if m.group(1) == 'then_some':
+            return [(b, some(a[1])), (z3.Not(b), NONE)]
+        outs = via_call(E, st, a[1], [], wrap=some)
+        res = [(z3.And(b, o[0]),) + tuple(o[1:]) for o in outs]
+        res.append((z3.Not(b), NONE))
+        return res
+
     # ranges
     @model(r'^(?:std|core)::ops::RangeInclusive::(new|start|end|contains|is_empty|into_inner)$|^(?:std|core)::ops::(Range|RangeFrom|RangeTo|RangeToInclusive)::(contains|is_empty)$|^<(?:std|core)::ops::(?:Range|RangeInclusive|RangeFrom|RangeTo|RangeToInclusive) as (?:std|core)::ops::RangeBounds>::contains$')
     def _(E, st, callee, a, m):
